@@ -23,13 +23,18 @@ PlainNames == {"A", "B", "...", "A..B", "destZ"}
 Stems == {"S", "..", ".", "", "A..B"}
 DestShapes == {"abs", "rel", "trailing", "dotdot", "dotdot2"}
 Kinds == {"file", "dir", "nested"}
+\* extension of a nested archive: plain, or compound ("<stem>.tar.gz", "<stem>.TAR.zip").  The directory a nested archive is
+\* unpacked into is its file name without the LAST extension: "..tar.gz" unpacks into "...tar", an ordinary name.
+Exts == {"zip", "tar.gz", "TAR.zip"}
 
-VARIABLES comps, leadingSep, kind, stem, destShape
-vars == <<comps, leadingSep, kind, stem, destShape>>
+CONSTANT StemTwice     \* FALSE: as coded.  TRUE (sensitivity): a ".tar" left over is stripped as well
+VARIABLES comps, leadingSep, kind, stem, destShape, ext
+vars == <<comps, leadingSep, kind, stem, destShape, ext>>
 
 Names == UNION {[1..n -> Alphabet] : n \in 1..3}
 Init == /\ comps \in Names /\ leadingSep \in BOOLEAN /\ kind \in Kinds /\ destShape \in DestShapes
         /\ stem \in (IF kind = "nested" THEN Stems ELSE {"S"})
+        /\ ext \in (IF kind = "nested" /\ stem \in {"S", ".."} THEN Exts ELSE {"zip"})
         \* a converted name: only the path of a FILE entry is converted (directories are created under their raw name); its last
         \* component is an ordinary name (it carries the bytes that force the conversion)
         /\ ((\E i \in 1..Len(comps) : comps[i] = "E..") => (kind = "file" /\ comps[Len(comps)] \in PlainNames))
@@ -42,21 +47,27 @@ Dest == CASE destShape = "abs" -> [abs |-> TRUE, comps |-> <<"R", "dest">>]
           [] destShape = "rel" -> [abs |-> FALSE, comps |-> <<"reldest">>]
           [] destShape = "dotdot" -> [abs |-> FALSE, comps |-> <<"..">>]            \* relative destinations made only of parent references
           [] destShape = "dotdot2" -> [abs |-> FALSE, comps |-> <<"..", "..">>]
-\* for a nested archive the entry name gets the stem appended as its last component ("<stem>.zip")
-EntryComps == IF kind = "nested" THEN Append(comps, stem) ELSE comps
+\* the name of the directory a nested archive "<stem>.<ext>" is unpacked into
+RootName == IF ext = "zip" \/ StemTwice THEN stem ELSE stem \o (IF ext = "tar.gz" THEN ".tar" ELSE ".TAR")
+\* for a nested archive the entry name gets one more component: the archive's file name.  With the plain extension the stem
+\* stands for it (the entry is judged like its unpacking directory: "...zip" is refused like ".."); with a compound extension
+\* the file name is an ordinary name whatever the stem
+EntryComps == IF kind = "nested" THEN Append(comps, IF ext = "zip" THEN stem ELSE "nestedfile") ELSE comps
 \* the joined path is cleaned with the names as they are in the archive, and only then converted
 Converted(p) == [abs |-> p.abs, comps |-> [i \in 1..Len(p.comps) |-> Eff(p.comps[i])]]
 Target == Converted(Clean(Join(Dest, [abs |-> FALSE, comps |-> EntryComps])))
 EntryEscapes == ~Inside(Target, Dest)
 \* a nested archive "<stem>.zip" at path P is unpacked into Dir(P)/<stem>; its content lands beneath that
-NestedRoot == Join(Dir(Clean(Join(Dest, [abs |-> FALSE, comps |-> comps \o <<"X">>]))), [abs |-> FALSE, comps |-> <<stem>>])
+NestedRoot == Join(Dir(Clean(Join(Dest, [abs |-> FALSE, comps |-> comps \o <<"X">>]))), [abs |-> FALSE, comps |-> <<RootName>>])
 NestedEscapes == kind = "nested" /\ ~Inside(NestedRoot, Dest)
 Escapes == ~Inside(Target, Dest) \/ NestedEscapes
 
 \* sanity of the algebra
 CleanIdempotent == Clean(Clean(Target)) = Clean(Target)
 InsideReflexive == Inside(Dest, Dest)
-Scenario == [comps |-> comps, leadingSep |-> leadingSep, kind |-> kind, stem |-> stem, destShape |-> destShape,
+\* the unpacking directory of a nested archive never leaves the directory that holds the archive
+NestedRootBesideArchive == (kind = "nested" /\ ext # "zip") => RootName \notin {"..", ".", ""}
+Scenario == [comps |-> comps, leadingSep |-> leadingSep, kind |-> kind, stem |-> stem, ext |-> ext, rootName |-> RootName, destShape |-> destShape,
              escapes |-> Escapes, target |-> Clean(Target).comps]
 Emit == PrintT(<<"BEHAVIOUR", ToJson(Scenario)>>)
 =============================================================================
